@@ -14,11 +14,11 @@ mkdir -p seeded/$ID
 cp "$SRC/patch.diff" "$SRC/demo.rs" seeded/$ID/
 [ -f "$SRC/demo_example.rs" ] && cp "$SRC/demo_example.rs" seeded/$ID/
 cp "$SRC/meta.txt" seeded/$ID/author-notes.txt 2>/dev/null
-res=$(./tools/try_mutant.sh seeded/$ID/patch.diff $PROP 2>&1)
+res=$(./tools/try_mutant_iso.sh seeded/$ID/patch.diff $PROP 2>&1)
 if ! echo "$res" | grep -q "^$PROP rc=1"; then
   others=$(python3 -c "import json;print(' '.join(c['property_id'] for c in json.load(open('/verif/MANIFEST.json'))['checks'] if c['property_id']!='$PROP'))")
   res="$res
-$(./tools/try_mutant.sh seeded/$ID/patch.diff $others 2>&1)"
+$(./tools/try_mutant_iso.sh seeded/$ID/patch.diff $others 2>&1)"
 fi
 echo "$res" | tee seeded/$ID/catch.txt | cut -c1-220
 python3 - "$ID" "$PROP" <<'PY'
@@ -35,7 +35,7 @@ json.dump({
  "needs_to_manifest":notes,
  "confirmed":{"demo_passes_on_clean_tree":True,"demo_fails_with_change":True,"baseline_547_still_pass":True,
               "how":"tools/confirm_mutant.sh in a scratch worktree under /tmp (removed afterwards)"},
- "checks_run":"tools/try_mutant.sh: the target check first; all other checks only when the target check missed",
+ "checks_run":"tools/try_mutant_iso.sh (scratch worktree of /repo + scratch copy of /verif): the target check first; all other checks only when the target check missed",
  "caught_by":caught,"not_caught_by":missed,"inconclusive":other,
 },open(f'/verif/seeded/{id}/meta.json','w'),indent=1)
 print("RESULT",id,"caught by:",caught)
